@@ -1,6 +1,7 @@
 /* U-reduce: normalise, reduce, look up, insert (C01, C02, C06) */
 #define UN_MAXSZ 100000
 size_t ghost_g, ghost_h;
+_Bool w_full;   /* witness: storage form of the scratch node (reachability canaries for both forms) */
 
 /* ---- ghost event log of the stubs -------------------------------------------------------- */
 unsigned g_seq;                                   /* global event counter */
@@ -156,6 +157,7 @@ void forest__createReducedNode(struct forest *self, struct unpacked_node *un, st
 __CPROVER_requires(__CPROVER_is_fresh(self, sizeof(*self)))
 UN_REQ(un)
 __CPROVER_requires(__CPROVER_is_fresh(ev, sizeof(*ev)) && __CPROVER_is_fresh(node, sizeof(node_handle)) && ghost_g < un->size && ghost_h < un->size)
+WITNESS(forest__createReducedNode, un->is_full == w_full)
 __CPROVER_requires(__CPROVER_is_fresh(self->unique, 1) && __CPROVER_is_fresh(self->nodeMan, 1))
 __CPROVER_requires(self->theLogger == NULL || __CPROVER_is_fresh(self->theLogger, 1))
 __CPROVER_requires(self->reachable == NULL)                                /* reference-count configuration */
